@@ -70,7 +70,8 @@ func alphabet(start string) []event {
 			pk("proposal(drops a current member)", "proposal", "L", "L", "drop-member", true, true),
 			pk("proposal(changed genesis time)", "proposal", "L", "L", "genesis-time", true, true),
 			pk("proposal(changed genesis seed)", "proposal", "L", "L", "genesis-seed", true, true),
-			pk("proposal(valid,from B)", "proposal", "B", "B", "none", false, false))
+			pk("proposal(valid,from B)", "proposal", "B", "B", "none", false, false),
+			pk("proposal(forged: leader's address listed twice, signed by the second key)", "proposal", "L", "Xdup", "none", false, true))
 	}
 	for _, c := range []string{"accept", "reject", "join", "execute", "abort", "reshare", "initial"} {
 		a = append(a, event{name: "command " + c, kind: "command", cmd: c})
